@@ -58,4 +58,6 @@ var props = map[string]propMeta{
 		Assumptions: commonAssumptions},
 	"C18": {Level: "exploration", Rule: "cases 0-35: each of the 12 golden directories written by the pinned release e481c06 (6 configurations x 2 contents, three collections each) is copied and opened lazily / through Create / written to first: the independent decoder checks the golden layout, every read path and the FULL search matrix must equal the manifest, AssignIndex, uniqueness and tag constraints must behave, 12 further writes follow and the directory must reload, pass Control and still obey the layout. Remaining cases: directories written by the current code under drawn configurations are walked by the independent decoder: directory name, <uuid><ext>[.gz] names, gzip iff .gz, file bytes == encoding/json of the object, schema.json keys, [value,id] tuples, exact decimal integers, index values/order vs the model. Non-trivial: golden cases, or >= 2 accepted writes",
 		Assumptions: append([]string{"'other versions' is represented by exactly one other build: the pinned release e481c06, whose output is committed under /verif/golden"}, commonAssumptions...)},
+	"C14": {Level: "exploration", Rule: "case k: 2-4 objects whose shapes are drawn recursively from the supported kinds (nil/empty/non-empty slices and maps, slices of pointers inside maps, pointer chains, arrays of pointers and of slices, interfaces holding containers, nested structs, time) are stored (single or batch) under cache/async on and off; every mutable location reachable from the caller's object is then scrambled and a read through Get/GetByUUID/All/AssignAll/Search.Collect must equal the snapshot taken at insert time and share no address (pointer targets, slice arrays, maps) with it; the returned object is scrambled and a second read checked the same way; the cached read must equal the decoded file. Non-trivial: >= 1 object with reachable containers; distinct = fingerprint of configuration + shapes",
+		Assumptions: append([]string{"exported fields only (the clone's documented exception for unexported pointers is outside the supported kinds); time.Time's shared *Location is not an alias"}, commonAssumptions...), Race: "thorough"},
 }
